@@ -34,6 +34,8 @@ impl Tier {
 }
 
 pub const WORKERS: usize = 16;
+/// how many preceding cases per worker are kept to reproduce history-dependent failures
+pub const RECENT_CASES: usize = 12;
 
 #[derive(Default, Debug)]
 pub struct Stats {
@@ -131,6 +133,9 @@ pub struct Violation {
     pub section: String,
     pub case: Value,
     pub message: String,
+    /// cases that have to be executed before `case` on the same thread for the failure to show
+    /// (empty for an ordinary, self-contained failure)
+    pub preceding: Vec<Value>,
 }
 
 /// Result of one section (a PBT campaign or an exhaustive enumeration) of a property.
@@ -187,7 +192,7 @@ pub fn run_pbt<T, S, C, J>(
     to_json: J,
 ) -> SectionResult
 where
-    T: Debug + Clone + Send + 'static,
+    T: Debug + Clone + Send + Sync + 'static,
     S: Fn() -> BoxedStrategy<T> + Sync,
     C: Fn(&T, &mut Stats) -> Result<(), String> + Sync,
     J: Fn(&T) -> Value + Sync,
@@ -205,12 +210,12 @@ pub fn run_pbt_workers<T, S, C, J>(
     to_json: J,
 ) -> SectionResult
 where
-    T: Debug + Clone + Send + 'static,
+    T: Debug + Clone + Send + Sync + 'static,
     S: Fn() -> BoxedStrategy<T> + Sync,
     C: Fn(&T, &mut Stats) -> Result<(), String> + Sync,
     J: Fn(&T) -> Value + Sync,
 {
-    let results: Vec<(Stats, Option<(T, String)>)> = std::thread::scope(|sc| {
+    let results: Vec<(Stats, Option<(T, String, Vec<T>)>)> = std::thread::scope(|sc| {
         let handles: Vec<_> = (0..workers)
             .map(|w| {
                 let strategy = &strategy;
@@ -230,16 +235,28 @@ where
                         let mut runner = TestRunner::new(cfg);
                         let stats = RefCell::new(Stats::default());
                         let first: RefCell<Option<String>> = RefCell::new(None);
+                        let first_case: RefCell<Option<(T, Vec<T>)>> = RefCell::new(None);
+                        let recent: RefCell<std::collections::VecDeque<T>> = RefCell::new(std::collections::VecDeque::new());
                         let strat = strategy();
                         let res = runner.run(&strat, |case| {
                             let mut st = stats.borrow_mut();
                             st.eval();
                             let r = guarded(|| check(&case, &mut st));
                             match r {
-                                Ok(()) => Ok(()),
+                                Ok(()) => {
+                                    if !st.frozen {
+                                        let mut q = recent.borrow_mut();
+                                        if q.len() == RECENT_CASES {
+                                            q.pop_front();
+                                        }
+                                        q.push_back(case.clone());
+                                    }
+                                    Ok(())
+                                }
                                 Err(m) => {
                                     if !st.frozen {
                                         *first.borrow_mut() = Some(m.clone());
+                                        *first_case.borrow_mut() = Some((case.clone(), recent.borrow().iter().cloned().collect()));
                                     }
                                     st.frozen = true;
                                     Err(TestCaseError::fail(m))
@@ -255,7 +272,73 @@ where
                                         m = format!("{}  [first failure before shrinking: {}]", m, f);
                                     }
                                 }
-                                Some((case, m))
+                                // Is the shrunk case a self-contained reproduction? Re-run it alone in a
+                                // fresh thread (cold thread-local state).
+                                let alone = std::thread::scope(|s2| {
+                                    s2.spawn(|| {
+                                        let mut st = Stats::default();
+                                        st.frozen = true;
+                                        guarded(|| check(&case, &mut st))
+                                    })
+                                    .join()
+                                    .unwrap_or_else(|_| Err("panic".into()))
+                                });
+                                if alone.is_err() {
+                                    Some((case, m, Vec::new()))
+                                } else {
+                                    // history-dependent: the failure needs calls made before it on the same
+                                    // thread. Find the shortest suffix of the preceding cases that, followed
+                                    // by the originally failing case, reproduces it in a fresh thread.
+                                    let (orig, prev) = first_case.borrow().clone().unwrap_or((case.clone(), Vec::new()));
+                                    let mut found: Option<Vec<T>> = None;
+                                    for k in 0..=prev.len() {
+                                        let suffix: Vec<T> = prev[prev.len() - k..].to_vec();
+                                        let res = std::thread::scope(|s2| {
+                                            let suffix = &suffix;
+                                            let orig = &orig;
+                                            s2.spawn(move || {
+                                                let mut st = Stats::default();
+                                                st.frozen = true;
+                                                for c in suffix {
+                                                    let _ = guarded(|| check(c, &mut st));
+                                                }
+                                                guarded(|| check(orig, &mut st))
+                                            })
+                                            .join()
+                                            .unwrap_or_else(|_| Err("panic".into()))
+                                        });
+                                        if res.is_err() {
+                                            found = Some(suffix);
+                                            break;
+                                        }
+                                    }
+                                    let fm = first.borrow().clone().unwrap_or(m.clone());
+                                    match found {
+                                        Some(pre) if pre.is_empty() => Some((
+                                            orig,
+                                            format!("{}  [the shrunk case did not reproduce alone in a fresh thread; the originally failing case does and is the one recorded]", fm),
+                                            pre,
+                                        )),
+                                        Some(pre) => Some((
+                                            orig,
+                                            format!(
+                                                "{}  [HISTORY-DEPENDENT: this case passes when run first in a fresh thread and fails only after the {} preceding case(s) recorded in the replay file]",
+                                                fm,
+                                                pre.len()
+                                            ),
+                                            pre,
+                                        )),
+                                        None => Some((
+                                            orig,
+                                            format!(
+                                                "{}  [NOT REPRODUCIBLE IN ISOLATION: neither the case alone nor the last {} cases of its worker reproduce the failure in a fresh thread; it depends on process-wide state or on timing]",
+                                                fm,
+                                                prev.len()
+                                            ),
+                                            Vec::new(),
+                                        )),
+                                    }
+                                }
                             }
                             Err(TestError::Abort(reason)) => {
                                 eprintln!("harness: proptest aborted in section {}: {}", section, reason.message());
@@ -274,8 +357,8 @@ where
     for (st, fail) in results {
         stats.merge(st);
         if violation.is_none() {
-            if let Some((case, msg)) = fail {
-                violation = Some(Violation { section: section.to_string(), case: to_json(&case), message: msg });
+            if let Some((case, msg, pre)) = fail {
+                violation = Some(Violation { section: section.to_string(), case: to_json(&case), message: msg, preceding: pre.iter().map(|c| to_json(c)).collect() });
             }
         }
     }
@@ -321,7 +404,7 @@ where
         stats.merge(st);
         if violation.is_none() {
             if let Some((i, msg)) = fail {
-                violation = Some(Violation { section: section.to_string(), case: to_json(i), message: msg });
+                violation = Some(Violation { section: section.to_string(), case: to_json(i), message: msg, preceding: Vec::new() });
             }
         }
     }
@@ -339,6 +422,7 @@ pub struct Report {
     pub assumptions: Vec<String>,
     pub exhaustive: Vec<String>,
     pub sections: Vec<Value>,
+    pub samples: Vec<Value>,
     pub extra: BTreeMap<String, Value>,
     pub start: Instant,
 }
@@ -355,6 +439,7 @@ impl Report {
             assumptions: Vec::new(),
             exhaustive: Vec::new(),
             sections: Vec::new(),
+            samples: Vec::new(),
             extra: BTreeMap::new(),
             start: Instant::now(),
         }
@@ -370,6 +455,17 @@ impl Report {
             "distinct_nontrivial": r.stats.nontrivial.len(),
             "violation": r.violation.is_some(),
         }));
+        // up to two non-trivial samples and one other from every section, tagged with the section
+        for (i, c) in r.stats.samples_nt.iter().enumerate() {
+            if i < 2 && self.samples.len() < 16 {
+                self.samples.push(json!({"section": name, "non_trivial": true, "case": c}));
+            }
+        }
+        if let Some(c) = r.stats.samples_tr.first() {
+            if self.samples.len() < 16 {
+                self.samples.push(json!({"section": name, "non_trivial": false, "case": c}));
+            }
+        }
         self.stats.merge(r.stats);
         if self.violation.is_none() {
             self.violation = r.violation;
